@@ -10,39 +10,53 @@ resident total, segments <= capacity - free, admission answers.
 from ekw import sim_shm
 
 PROPERTY = "C08"
-LEVEL_TEXT = ("Lean theorems over Model/Shm.lean (Manager.add/get/close_callback/purge/page_out_at_least/page_in with their callbacks, "
-              "Dataset.is_pageoutable, algorithms.lottery, Disk._page_out/_page_in, the writer's segment creation): by an invariant proved for the "
-              "initial state and preserved by every step, lifted to all histories by induction (unbounded length, keys, clients, jobs; every "
+LEVEL_TEXT = ("Lean theorems over Model/Shm.lean (Manager.add/get/close_callback/purge (incl. the failed-job purge)/page_out_at_least/page_in with their callbacks, "
+              "Dataset.is_pageoutable, algorithms.lottery, Disk._page_out/_page_in incl. short and long files and size 0, the writer's segment creation): by an invariant "
+              "proved for the initial state and preserved by every step, lifted to all histories by induction (unbounded length, keys, clients, jobs; every "
               "interleaving of requests with the I/O part and the callback part of every disk job, successful or failed): free + sum of resident "
-              "sizes = capacity, existing segments <= capacity - free, FreeSpaceRequest answers free; admission rule, page-in reservation and "
-              "'space returns only via purge/close/callback' for every state. The reachable-state theorems are _partial: they assume that no purge "
-              "request hits a reader-less dataset whose disk job is in flight (known finding C08-purge-in-flight, with machine-checked "
-              "counterexamples c08_accounting_full_fails / c08_real_usage_full_fails) and that the writer creates its segment with the granted size "
-              "while the dataset is 'created'. c08_midio_purge_atomic: a purge served while the page-out writer thread is between write and unlink acts like "
+              "sizes = capacity, existing segments <= capacity - free, a FreeSpaceRequest is answered capacity - resident total; admission rule, page-in reservation and "
+              "'space returns only via purge/close/callback' for every state. The reachable-state theorems are _partial: they assume SafeRun = (b) no purge "
+              "request hits a reader-less dataset whose disk job is in flight (known finding C08-purge-in-flight, machine-checked "
+              "counterexamples c08_accounting_full_fails / c08_real_usage_full_fails) and (a) the writer creates its segment with the granted size "
+              "while the dataset is 'created' (needed: c08_real_usage_writer_full_fails, two witnesses replayed on the real store; the real client.allocate does so, which "
+              "the tie checks by executing it). Thread level: c08_locked_updates_exact -- with every update of free_space split into acquire/read/write/release micro steps "
+              "and any number of threads interleaving at that granularity, no update is lost when every site takes pageout_one (the code after the fix), "
+              "c08_unlocked_update_full_fails -- with one unlocked site (add/page_in before the fix) an update is lost; the harness forces that schedule on the real "
+              "Manager with a real second thread. c08_midio_purge_atomic: a purge of ANY key served while the page-out writer thread is between write and unlink acts like "
               "'purge, then the job's I/O' (handler-atomic steps lose nothing). Tied to the real Manager by a step-by-step correspondence check, incl. purges "
-              "served from inside Disk._page_out.")
-LEVEL_NOTE = ("modelled, not verified: cascade/shm/dataset.py Manager+Dataset, algorithms.py lottery, disk.py Disk (as two maps key->(size,content token)), "
-              "server.py request dispatch (exercised, FreeSpaceRequest modelled), client.py AllocatedBuffer (exercised). Handler-atomic steps: byte-code level "
-              "races between the server thread and pool-thread callbacks are outside the model; POSIX shm/file semantics are validated, not proved")
+              "served from inside Disk._page_out and callbacks run by a second thread inside add/page_in.")
+LEVEL_NOTE = ("modelled, not verified: cascade/shm/dataset.py Manager+Dataset, algorithms.py lottery, disk.py Disk (as two maps key->(size,content token); a token also encodes "
+              "'m leading pattern bytes, rest zero'), server.py request dispatch (every request of every history goes through it in half of the histories and in all client "
+              "calls; FreeSpaceRequest modelled), client.py _send_command/allocate/get/AllocatedBuffer (modelled: sendLoop/clientAlloc/clientGet; exercised over a fake socket). "
+              "Thread level: only the updates of free_space are modelled at micro-step granularity (Lemmas/ShmMicro.lean); other byte-code level races between the server "
+              "thread and pool-thread callbacks (e.g. a failure callback popping from Manager.datasets while page_out_at_least iterates over it) are outside the model; "
+              "Manager.__init__'s capacity trimming is outside (get_capacity is stubbed); POSIX shm/file semantics are validated, not proved")
 TECHNIQUE = "Lean 4 invariant proof (induction over op histories) + differential correspondence of the real shm Manager with harness-controlled disk jobs"
 LEAN_PROPS = ["EkwVerif.Props.C08"]
 LEAN_DRIVERS = ["C08"]
-RULE = ("random histories of 5-80 ops (thorough: up to 120) over 1-5 keys (thorough 6), capacity 1-64, 1-4 clients: add (sizes up to capacity+3), "
-        "writer create+write, writer close, get (uuid candidates incl. collisions), reader close, purge, free-space request, I/O part of a pending disk job "
-        "(ok / fail / fail after segment creation), callback part, bogus closes, 'everybody finishes then retry add' scenario; clock advances 1-5 per op with "
-        "occasional jumps beyond the 15 min staleness window; half of the histories go through LocalServer.start. non-trivial = history with a completed "
-        "disk-job callback, a 'wait' answer or a granted get; distinct by content hash")
+RULE = ("random histories of 5-80 ops (thorough: up to 120) over 1-5 keys (thorough 6), 1-4 clients; 95% with capacity 1-64 and sizes up to capacity+3 incl. size 0, 5% with "
+        "capacity 4097-20480 and datasets of 4096, 4097, 8192, 8193 and random sizes above disk.py's chunk size (the chunk loop of _page_in iterates); ops: add, "
+        "writer create+write (5% of the histories: with a size other than the granted one or after eviction -- counted, not reported), writer close, get (uuid candidates incl. "
+        "collisions), reader close, purge, free-space request, I/O part of a pending disk job (ok / REAL failures: spill directory gone, segment cannot be created, file "
+        "cannot be opened after the segment was created), a purge of the job's own or another key served from inside Disk._page_out, callback part, a callback run by a real "
+        "second thread while add/page_in is between reading and writing free_space, bogus closes, the real client.allocate / client.get (default and short timeouts, "
+        "other clients' disk-job steps during the sleeps), 'everybody finishes then every dataset still held must be readable and an allocation up to the capacity granted' "
+        "scenario, 8% life-cycle histories (one key written, evicted, read back, purged, allocated again with the same size and other bytes, several times); clock "
+        "advances 1-5 per op with jumps beyond / between the staleness windows; STALE_CREATE/STALE_READ = the source's values (35%) or small different values (65%); half "
+        "of the histories go through LocalServer.start. Known-finding signatures describe the mechanism AT the failing op (the disk job orphaned by a purge, the allocation "
+        "whose segment it consumed), not the history. non-trivial = history with a completed disk-job callback, a 'wait' answer or a granted get; distinct by content hash")
 ASSUMPTIONS = [
-    "request handlers and pool-thread callbacks are atomic steps (DESIGN section 3); a disk job is an I/O step plus a callback step",
-    "the writer creates its segment with the granted size while its dataset is still 'created' (client.allocate does so right after the grant)",
-    "time.time_ns and uuid.uuid4 are replaced by deterministic fakes; get_capacity() is stubbed (no findmnt); the per-process multiprocessing resource tracker is disabled in the harness process",
+    "request handlers and pool-thread callbacks are atomic steps, except the read-modify-write of Manager.free_space which is modelled (and forced on the real code) at micro-step granularity; a disk job is an I/O step plus a callback step",
+    "the writer creates its segment with the granted size while its dataset is still 'created' (client.allocate does so right after the grant; executed for real in the client ops)",
+    "time.time_ns and uuid.uuid4 are replaced by deterministic fakes; get_capacity() is stubbed (no findmnt); the per-process multiprocessing resource tracker is disabled in the harness process; STALE_CREATE/STALE_READ (module constants) are replaced by small values in most histories",
     "shmid is an injective function of the key (md5 prefix): segments/files are compared by key",
+    "explicit client timeouts are those for which the loop's float arithmetic makes the same number of attempts as exact arithmetic (0.1, 0.25, 0.3, 0.35, 0.75 s; for e.g. 0.5 s rounding leaves 2.7e-17 s and one more attempt)",
 ]
 KINDS = sim_shm.C08_KINDS
 
 
 def correspond(ctx):
-    n = ctx.budget(260, 8000)
+    n = ctx.budget(260, 4000)
     sim_shm.run_batch(ctx, KINDS, "c08", n, ctx.budget(80, 120), ctx.budget(5, 6), "C08_*.json")
 
 
